@@ -25,6 +25,12 @@ def split_cases(rng, tier):
     for prog, regs in rvgen.long_programs(rng, tier):          # thousands of cycles, with and without caches
         yield rvgen.long_case(prog, regs, "five", HAZARD, suite="sim-five")
         yield rvgen.long_case(prog, regs, "five", HAZARD, dspec=rvgen.penalty_cache_spec(rng, "d"), ispec=rvgen.penalty_cache_spec(rng, "i"), suite="sim-five")
+    for prog, regs in rvgen.reg_sweep_programs():          # every register number as the register of a dependency
+        lines = rvgen.header("five", HAZARD, "-", "-", prog, regs, []) + ["sim.snap"]
+        for _ in range(len(prog) + 16):
+            lines += ["sim.step", "sim.snap"]
+        lines += ["sim.run 200", "sim.snap"]
+        yield Case("sim-five", lines, None, {"mode": "five", "hazard": HAZARD, "prog": prog, "regs": regs, "pokes": [], "d": "-", "i": "-"})
     for prog, regs in rvgen.fault_schedule_programs():      # faults in every pipeline situation: same fault, same state in both modes
         lines = rvgen.header("five", HAZARD, "-", "-", prog, regs, []) + ["sim.snap"]
         for _ in range(14):
